@@ -11,6 +11,7 @@ property directly (integers in full, n/d and w n/d equal to the value, floats wi
 within half a unit of the last one, unit words = non-zero base dimensions, element-wise), (3) the re-entry
 text is fed back to execute() and must give the same value (floats: within half a unit of the last
 displayed digit, plus the final rounding of float())."""
+import os
 import json, random, re, struct as pystruct, sys
 from fractions import Fraction
 import common as C
@@ -912,7 +913,113 @@ def kind_name(s):
             "B": "bool", "N": "none", "O": "other"}[s[0]]
 
 
+_REENTRY_DRIVER = r"""
+import sys, json, io
+sys.path.insert(0, sys.argv[1])
+import common as C
+from ka.interpret import execute, stringify_result, ResultBox
+from ka.eval import EvalEnvironment
+out = []
+class Box:
+    value = None
+for t in json.loads(sys.argv[2]):
+    r = dict(text=t)
+    try:
+        o, e = io.StringIO(), io.StringIO(); box = ResultBox(); abox = Box()
+        st = execute(t, EvalEnvironment(), out=o, errout=e, result_box=box, assigned_box=abox)
+        r.update(status=st, shown=o.getvalue()[:200], assigned=abox.value)
+        if st == 0:
+            r["value"] = C.enc_value(box.value)
+            rt = stringify_result(box.value, brackets_for_frac=True)
+            r["reentry"] = rt
+            o2, e2 = io.StringIO(), io.StringIO(); box2 = ResultBox()
+            st2 = execute(rt, EvalEnvironment(), out=o2, errout=e2, result_box=box2)
+            r.update(re_status=st2, re_value=C.enc_value(box2.value) if st2 == 0 else None, re_err=e2.getvalue()[:120])
+            # what the GUI offers for the input line: the assigned variable if the input ends in an assignment, else the re-entry text
+            if abox.value is not None:
+                env = EvalEnvironment(); o3, e3 = io.StringIO(), io.StringIO(); execute(t, env, out=o3, errout=e3)
+                o4, e4 = io.StringIO(), io.StringIO(); box4 = ResultBox()
+                st4 = execute(str(abox.value), env, out=o4, errout=e4, result_box=box4)
+                r.update(as_status=st4, as_value=C.enc_value(box4.value) if st4 == 0 else None)
+    except BaseException as x:
+        r["escaped"] = type(x).__name__ + ": " + str(x)[:80]
+    out.append(r)
+print("\n@@R@@" + json.dumps(out))
+"""
+
+
+def reentry_under_configs(ctx):
+    """exact values (no float rounding involved) displayed and re-entered in fresh interpreters under other configuration files:
+    the re-entry text must evaluate back to the value, whatever the base currency is called and whatever the precision is;
+    and what execute() reports as the assigned variable must read as the displayed value"""
+    import subprocess, json as _json, tempfile as _tf
+    rep = ctx["report"]
+    texts = ["5 usd", "{5 usd}", "5 usd^2", "3 eur", "(7/2) gbp", "{1 eur, 2 usd}", "[1 eur, 2 eur]", "5 m", "(7/2) m s^-2", "7/2", "{1/3, 2}", "10^30", "#2020-01-31T00:00:00+02:00#",
+             "x = 2; x^2", "x = 3", "x = 2; y = x + 1", "x = 20!; x", "a = 1; a + 1; b = 5", "5!", "{{3!}}"]
+    harness = os.path.dirname(os.path.dirname(os.path.abspath(__file__)))
+    root = _tf.mkdtemp(prefix="c15cfg-", dir=ctx["rundir"])
+    # a float shown at precision p re-enters with p significant digits: the comparison allows exactly that much
+    for tag, lines, tol in [("default", None, 1e-5), ("base-currency = USD", ["base-currency = USD"], 1e-5), ("base-currency = usd", ["base-currency = usd"], 1e-5),
+                            ("base-currency = Gbp", ["base-currency = Gbp"], 1e-5), ("precision = 0", ["precision = 0"], 0.5), ("precision = 30", ["precision = 30"], 1e-12),
+                            ("base-currency = nosuch", ["base-currency = nosuch"], 1e-5)]:
+        home = os.path.join(root, re.sub(r"\W+", "_", tag))
+        os.makedirs(os.path.join(home, ".config", "ka"))
+        if lines is not None:
+            open(os.path.join(home, ".config", "ka", "config"), "w").write("\n".join(lines) + "\n")
+        env = {k: v for k, v in os.environ.items() if not k.startswith(("XDG_", "PYTHON"))}
+        env.update(HOME=home, PYTHONPATH=C.SRC, PYTHONHASHSEED="0", PYTHONDONTWRITEBYTECODE="1", KA_REPO=C.REPO)
+        try:
+            p = subprocess.run(["/venv/bin/python", "-c", _REENTRY_DRIVER, harness, _json.dumps(texts)], env=env, cwd=home, stdout=subprocess.PIPE, stderr=subprocess.PIPE, timeout=300)
+            so = p.stdout.decode("utf-8", "replace")
+            res = _json.loads(so[so.rfind("@@R@@") + 5:]) if "@@R@@" in so else None
+        except Exception:
+            res = None
+        if res is None:
+            rep.violation(dict(op="start-up", kinds=["config"], cond=tag), "C15: with the configuration %r the interpreter does not start" % tag, dict(config=tag), found_input=True)
+            continue
+        for r in res:
+            why = None
+            if r.get("escaped"):
+                why = "escapes: %s" % r["escaped"]
+            elif r.get("status") == 0 and (r.get("re_status") != 0 or not C.enc_close(r.get("value"), r.get("re_value"), tol)):
+                why = "displays %r; its re-entry text %r gives %s (%s), not the value %s" % ((r.get("shown") or "").strip()[:60], r.get("reentry"), r.get("re_value"), (r.get("re_err") or "").strip()[:60], r.get("value"))
+            elif r.get("status") == 0 and r.get("assigned") is not None and not C.enc_close(r.get("value"), r.get("as_value"), 1e-15):
+                why = "displays %r and reports the variable %r for re-entry, which reads as %s, not %s" % ((r.get("shown") or "").strip()[:60], r.get("assigned"), r.get("as_value"), r.get("value"))
+            if why:
+                rep.violation(dict(op="reentry", kinds=["config"], cond=tag if "escapes" not in why else "escaped"),
+                              "C15 fails (%s): %s %s" % (tag, r["text"], why), dict(text=r["text"], config=tag, observed=r))
+
+
+def _million_digits(text):
+    import io, hashlib
+    from ka.interpret import execute
+    from ka.eval import EvalEnvironment
+    o, e = io.StringIO(), io.StringIO()
+    try:
+        st = execute(text, EvalEnvironment(), out=o, errout=e)
+    except C.CaseTimeout:
+        raise
+    except BaseException as x:
+        return dict(text=text, escaped=type(x).__name__)
+    out = o.getvalue()
+    return dict(text=text, status=st, n=len(out.strip()), head=out[:12], tail=out.strip()[-12:], err=e.getvalue()[:100])
+
+
+def million_digits(ctx):
+    """'integers print in full', beyond a million digits too (what is checked: the length and both ends of the text)"""
+    rep = ctx["report"]
+    want = {"10^1100000": (1100001, "100000000000", "000000000000"), "10^1100000 + 7": (1100001, "100000000000", "000000000007"),
+            "-(10^1000001)": (1000003, "-10000000000", "000000000000")}
+    for o in C.run_impl(_million_digits, list(want), ctx["rundir"], limit=300.0, chunksize=1):
+        n, head, tail = want[o["text"]] if "text" in o else (None, None, None)
+        if o.get("hung") or o.get("escaped") or o.get("status") != 0 or o.get("n") != n or o.get("head") != head or o.get("tail") != tail:
+            rep.violation(dict(op="display", kinds=["int"], cond="more-than-a-million-digits"),
+                          "C15 fails: %s is not printed in full (%s)" % (o.get("text"), {k: v for k, v in o.items() if k != "text"}), dict(text=o.get("text"), observed=o))
+
+
 def run(ctx):
+    reentry_under_configs(ctx)
+    million_digits(ctx)
     rep, tier, seed = ctx["report"], ctx["tier"], ctx["seed"]
     rng = random.Random(seed * 7919 + 15)
     cases = gen_cases(rng, tier)
